@@ -46,7 +46,11 @@ def plan(prop, tier):
                 ('L6', lambda: LY.L6(tier, include_cycles=True)), ('L7', lambda: LY.L3(tier, decimal=True)), ('L5', lambda: LY.L5(tier)), ('L2b', lambda: LY.L2b(tier)), ('L3long', lambda: LY.L3long(tier)), ('L5b', lambda: LY.L5b(tier)),
                 ('L4cal', lambda: LY.L4_inputs(tier))],
     }
-    return P[prop] + ([('HC', None)] if prop in ('C02', 'C03', 'C04', 'C08', 'C14') else [])
+    sch = {'C02': f, 'C08': f, 'C09': b}.get(prop, both)
+    P[prop].append(('L8', lambda: LY.L8(tier, sch)))
+    if prop != 'C09':
+        P[prop].append(('L2m', lambda: LY.L2m(tier, both if prop == 'C14' else f)))
+    return P[prop] + ([('HC', None)] if prop in ('C02', 'C03', 'C04', 'C07', 'C08', 'C09', 'C14') else [])
 
 
 ORACLE = {'C02': OR.c02, 'C03': OR.c03, 'C04': OR.c04, 'C07': OR.c07, 'C08': OR.c08, 'C09': OR.c09}
@@ -162,6 +166,17 @@ def run_plain(prop, sc, acc, expected=None):
         ex2 = execute(sc)
         acc.count('replayed_for_determinism')
         if ex2.status != 'ok' or outcome_key(SchedObs(ex2)) != outcome_key(ob):
+            # every seam (clock, calendars, budget) is reset per execution, so the library carried something over from the earlier
+            # calc: the second schedule of this same input is judged by the oracle as well; only if it passes too is this a harness error
+            before = sum(v[0] for v in acc.viol.values())
+            if ex2.status == 'ok':
+                evaluate(prop, sc, ex2, acc, extra={'history': 'the same input scheduled a second time by a fresh scheduler with fresh resources'},
+                         expected=expected)
+            else:
+                V, _ = _mk_V(acc, prop, sc, {'history': 'the same input scheduled a second time by a fresh scheduler with fresh resources'})
+                V('second-calc-of-same-input-fails', '-', f'first calc gave a schedule, an identical second one did not: {ex2.error!r}')
+            if sum(v[0] for v in acc.viol.values()) > before:
+                return
             raise runtime.HarnessError('replay nondeterminism: the same scenario gave two different schedules: ' + sc.key()[:300])
 
 
@@ -203,7 +218,7 @@ def calendar_edit_histories(prop, acc, compare_fresh=False):
     from pjplan import DirectCalendar, WeeklyCalendar, Resource
     from ..sched import scenario as SC
     Counting, _ = SC._cls()
-    for sched_kind in (('fwd', 'bwd') if prop not in ('C02', 'C08') else ('fwd',)):
+    for sched_kind in (('fwd',) if prop in ('C02', 'C08') else (('bwd',) if prop == 'C09' else ('fwd', 'bwd'))):
         A = MON if sched_kind == 'fwd' else MON + 21 * DAY
         near = [A + DAY, A + 2 * DAY] if sched_kind == 'fwd' else [A - 4 * DAY, A - 5 * DAY]
         for bal in (True, False):
@@ -270,6 +285,64 @@ def default_resource_histories(prop, acc):
                     evaluate(prop, sc, ex2, acc, extra={'history': 'calc; edit returned default resource; fresh scheduler calc'})
 
 
+def reuse_histories(prop, acc):
+    """Two plans made with the SAME supplied Resource objects: another WBS is scheduled first (successfully, or failing in the
+    middle of the pass because a resource's calendar runs out), then the WBS under test is scheduled on the same scheduler
+    object or on a new scheduler given the same resource objects. The second schedule is judged by the property's oracle as if
+    it were the only one (C06: it must equal the schedule of a fresh scheduler with fresh resources)."""
+    from pjplan import WeeklyCalendar, Resource
+    from ..sched import scenario as SC
+    Counting, _ = SC._cls()
+    kinds = ('fwd',) if prop in ('C02', 'C08') else (('bwd',) if prop == 'C09' else ('fwd', 'bwd'))
+    seconds = [((None, None, None), ((0, 1),), (4, 12, 8)), ((None, 0, 0, None), ((0, 3),), (None, 12, 4, 8)),
+               ((None, None), (), (20, 2.5))]
+    for sched_kind in kinds:
+        A = MON if sched_kind == 'fwd' else MON + 28 * DAY
+        for bal in (True, False):
+            for first in ('ok', 'fails'):
+                for mode in ('same-scheduler', 'new-scheduler-same-resources'):
+                    for par, links, ests in seconds:
+                        def mkres():
+                            # B's calendar ends (forward) / begins (backward) a week from the anchor: too much work on B fails
+                            if sched_kind == 'fwd':
+                                calb = WeeklyCalendar(days=[0, 1, 2, 3, 4], units_per_day=8, end=A + 7 * DAY)
+                            else:
+                                calb = WeeklyCalendar(days=[0, 1, 2, 3, 4], units_per_day=8, start=A - 7 * DAY)
+                            return [Resource('A', Counting(WeeklyCalendar(days=[0, 1, 2, 3, 4], units_per_day=8))), Resource('B', Counting(calb))]
+                        resources = mkres()
+                        cals = {'A': 'custom-edited-later', 'B': 'custom-edited-later'}
+                        # first plan: task 1 on A is scheduled, then task 2 on B (60 h do not fit into B's calendar when first == 'fails')
+                        a1 = {0: {'estimate': 12, 'resource': 'A'}, 1: {'estimate': 60 if first == 'fails' else 8, 'resource': 'B'}}
+                        sc1 = Scenario(sched_kind, bal, A, LY.mk_tasks((None, None), a1), [], cals=cals, layer='HC')
+                        lv = [i for i in range(len(par)) if LY.is_leaf(par, i)]
+                        a2 = {i: {'estimate': ests[i], 'resource': 'AB'[k % 2]} for k, i in enumerate(lv)}
+                        sc2 = Scenario(sched_kind, bal, A, LY.mk_tasks(par, a2), list(links), cals=cals, layer='HC')
+                        sch = make_scheduler(sc1, resources)
+                        ex1 = execute(sc1, scheduler=sch)
+                        if (ex1.status == 'ok') != (first == 'ok'):
+                            raise runtime.HarnessError(f'reuse history: first plan expected to be {first}, got {ex1.status} {ex1.error!r}')
+                        sch2 = sch if mode == 'same-scheduler' else make_scheduler(sc2, resources)
+                        ex2 = execute(sc2, scheduler=sch2)
+                        acc.count('premise:calc-after-%s-calc-with-same-resources' % ('failed' if first == 'fails' else 'another'))
+                        extra = {'history': f'first another WBS ({first}) with the same Resource objects; then this WBS on {mode}'}
+                        if prop == 'C06':
+                            ex3 = execute(sc2, scheduler=make_scheduler(sc2, mkres()))
+                            acc.count('executions', 2)
+                            acc.count('nontrivial')
+                            k2 = outcome_key(SchedObs(ex2)) if ex2.status == 'ok' else ex2.status
+                            k3 = outcome_key(SchedObs(ex3)) if ex3.status == 'ok' else ex3.status
+                            if k2 != k3:
+                                V, _ = _mk_V(acc, 'C06', sc2, extra)
+                                V('result-depends-on-earlier-calc', f'{first}/{mode}',
+                                  'a scheduler / resource objects that were used for another plan before give another schedule than fresh ones: '
+                                  + (repr(ex2.error) if ex2.status != 'ok' else 'schedules differ'))
+                        else:
+                            evaluate(prop, sc2, ex2, acc, extra=extra)
+                            if ex2.status != 'ok' and prop != 'C14':
+                                V, _ = _mk_V(acc, prop, sc2, extra)
+                                V('no-schedule-after-earlier-calc', f'{first}/{mode}', f'the second plan was not scheduled: {ex2.error!r}')
+
+
 def _work(chunk):
     prop, tier, lname, i, n = chunk
     acc = runtime.Acc()
@@ -278,6 +351,8 @@ def _work(chunk):
             calendar_edit_histories(prop, acc)
             if prop in ('C03', 'C04', 'C14'):
                 default_resource_histories(prop, acc)
+        if i == 1:
+            reuse_histories(prop, acc)
         return acc
     gen = dict(plan(prop, tier))[lname]()
     bound_cal = 2 if tier == 'quick' else 3
@@ -312,7 +387,17 @@ def run(rep, prop):
     if rep.seed:
         r = rep.seed % len(chunks)
         chunks = chunks[r:] + chunks[:r]
-    runtime.run_chunks(_work, chunks, rep.acc)
+    # call histories first (small); if the plain layers then stop on a replay divergence (the library carried state from one calc
+    # into the next) and a history has already shown a violation, the violation is the verdict, not the harness error
+    hist = [ch for ch in chunks if ch[2] == 'HC']
+    runtime.run_chunks(_work, hist, rep.acc)
+    try:
+        runtime.run_chunks(_work, [ch for ch in chunks if ch[2] != 'HC'], rep.acc)
+    except runtime.HarnessError as e:
+        if 'replay nondeterminism' in str(e) and any(k[0] == prop for k in rep.acc.viol):
+            rep.coverage['aborted'] = 'plain layers stopped at a replay divergence after the call histories had found violations: ' + str(e)[-400:]
+        else:
+            raise
     c = rep.acc.counters
     if c['executions'] == 0:
         raise runtime.HarnessError('no executions')
@@ -542,6 +627,8 @@ def _work_c06(chunk):
         if i == 0:
             calendar_edit_histories('C06', acc)
             default_resource_histories('C06', acc)
+        if i == 1:
+            reuse_histories('C06', acc)
         return acc
     gen = dict(_c06_layers(tier))[lname]()
     for sc in itertools.islice(gen, i, None, n):
